@@ -41,6 +41,16 @@ static void lst_make_sequence(vp_rng_t* r, int mode, uint64_t idx, seq_t* s)
     int nd = 1 + (int)vp_rng_below(r, 5);
     const char* name = "?";
     uint64_t base = 1000000000000ull + vp_rng_below(r, 1000000) * 125000ull;
+    if (idx % 41 == 17) {                 /* soak: a long run of valid CRF packets (queue bookkeeping over > 100 packets), then an AAF packet that drains, then CRF again */
+        uint8_t b[DGRAM_MAX];
+        for (int d = 0; d < 6; d++) { memset(b, 0, sizeof b); seq_add(s, b, build_crf(r, b, (uint8_t)d, base + (uint64_t)d * 20000000)); }
+        memset(b, 0, sizeof b); seq_add(s, b, build_aaf(r, b, 7, (uint32_t)vp_rng_next(r) | 1u));
+        memset(b, 0, sizeof b); seq_add(s, b, build_crf(r, b, 8, base + 900000000ull));
+        s->repeat = 20 + (int)((idx / 41) % 3) * 10; s->rep_n = 6;
+        snprintf(s->tmpl, sizeof s->tmpl, "soak-valid-crf-then-aaf-then-crf");
+        (void)mode;
+        return;
+    }
     for (int d = 0; d < nd; d++) {
         uint8_t b[DGRAM_MAX]; memset(b, 0, sizeof b);
         size_t n;
